@@ -17,7 +17,7 @@ ASSUMPTIONS = [
     'weights positive',
 ]
 OUTSIDE = ['YAML / libconfig (ruamel.yaml / libconf not installed)', 'binary formats', 'containers of more than 3 shapes', 'jinja2 templates']
-BOUNDS = {'quick': 'JSON: curve / surface (spline, freeform, container trims) / volume, containers of 1..3; smesh, vmesh (sizes pairwise different); txt 1-D / 2-D; csv; compatibility *_file helpers',
+BOUNDS = {'quick': 'JSON: curve / surface (spline, freeform, container trims) / volume, containers of 1..3; smesh, vmesh (sizes pairwise different); txt 1-D / 2-D; csv; compatibility *_file helpers; per-direction sampling densities with two equal and one different',
           'thorough': 'additional degrees / sizes, containers of 3 for every kind'}
 
 
